@@ -699,4 +699,23 @@ theorem C17_sign_then_verify_secp256k1_partial (bf d : Int) (comp : Bool)
     C17_secp256k1_p_lt_2n bf d comp hd hRC name pa pp msg sig hsign
   exact ⟨Q, hQ, hv⟩
 
+
+/-! ## non-vacuity (evaluation, a test — not a theorem): on a concrete instance the model signs, the text has the
+documented form, the signer's key verifies, another message and malformed texts are refused with `False` -/
+
+def testEnv : Env :=
+  ⟨Pycoin.Gen.Curves.secp256k1, 0, "Bitcoin".toList, fun _ => .contract "p2pkh" none, fun _ => .ok "addr".toList⟩
+
+def isOkTrue : Except MsgSigning.Err Bool → Bool | .ok true => true | _ => false
+def isOkFalse : Except MsgSigning.Err Bool → Bool | .ok false => true | _ => false
+
+#guard (match signMessage testEnv 12345 true "hello".toList false, mulG testEnv.c 0 12345 with
+  | .ok sig, .ok Q => isOkTrue (verifyMessage testEnv (.obj (.key Q)) sig (some "hello".toList))
+      && isOkFalse (verifyMessage testEnv (.obj (.key Q)) sig (some "hellp".toList))
+      && sig == "IMFV6wZUz1hALmrO1I1nyjhLo2lAXANit4a2oRaDR3+M7BfGGWyK76PXCJaZxov+ygGkyv9yCML5ZQj+W0MFycI=".toList
+  | _, _ => false)
+
+#guard ["!!!!", "abc", "a", "", "é", "IMFV6wZU", "AAAAAAAAAAAAAAAAAAAAAAAAAAAAAAAAAAAAAAAAAAAAAAAAAAAAAAAAAAAAAAAAAAAAAAAAAAAAAAAAAAAAAAAAAAAAAA=="].all
+  fun t => isOkFalse (verifyMessage testEnv (.text "x".toList) t.toList (some "m".toList))
+
 end Pycoin.MsgSigning
